@@ -98,9 +98,14 @@ PROPS = {
         "rule": GEN + "2-4 containers of different kinds alive at once whose element / key / value type is the probe type Tok (own "
                 "constructor, assign, destructor, owns a malloc'ed payload); every live token must be visible at exactly one place after "
                 "every operation, live tokens == sum of lengths, no double / unknown finalisation, copies and assignments deep, zero live "
-                "tokens after everything was deleted. Non-trivial = Tok run with >= 2 of {rehash, Tree two-children removal, sort, "
+                "tokens after everything was deleted. A second pair of stages runs the heap engine with Box -> object and Box -> Box -> object "
+                "ownership chains deleted explicitly, collected, swept together with what they own and torn down, judged by the exactly-once "
+                "object ledger. Non-trivial = Tok run with >= 2 of {rehash, Tree two-children removal, sort, "
                 "cross-kind assign, copy}; distinct = distinct trace hashes.",
-        "stages": _cont(5, 6000, 600_000, 10),
+        "stages": lambda tier: _cont(5, 6000, 600_000, 10)(tier) + [
+            # the Box clause: ownership chains through Box in the heap engine, judged by the exactly-once ledger under C05's name
+            {"scen": "heap", "env": {"focus": 5, "avoid_kf": AVOID_KF_HEAP}, "runs": 2000 if tier == "quick" else 60_000, "configs": ["plain"], "first": 40_000_000, "chunk": 25},
+            {"scen": "heap", "env": {"focus": 5, "avoid_kf": AVOID_KF_HEAP}, "runs": 300 if tier == "quick" else 6_000, "configs": ["asan"], "first": 50_000_000, "chunk": 25}],
         "rare_probes": ["table.rehash_up", "table.rehash_down", "tree.rem_two_children", "seq.sort", "assign.cross_kind", "copy", "c10.swaps"],
         "assumptions": COMMON_ASSUME + ["List.resize(n > len) is not applied to Tok lists (it creates never-constructed elements)"],
     },
